@@ -419,22 +419,25 @@ func edgeBranchCase(ctx context.Context, rep *mon.Reporter, rng *mon.Rand, cfg m
 					}
 					digest += fmt.Sprintf(" x-executed=%v", nx > 0)
 				}
-			} else if ref.Err == "" {
-				digest = "error: " + res.out.Err.Error()
+			}
+			desc := sname + ": " + res.pushSeq
+			if res.out.Err != nil && ref.Err == "" {
+				digest = "error (the reference has a result)"
+				desc += "   [" + res.out.Err.Error() + "]"
 			}
 			found := false
 			for _, o := range outcomes {
 				if o.digest == digest {
-					o.orders = append(o.orders, sname+": "+res.pushSeq)
+					o.orders = append(o.orders, desc)
 					found = true
 				}
 			}
 			if !found {
-				outcomes = append(outcomes, &ebOutcome{digest: digest, orders: []string{sname + ": " + res.pushSeq}})
+				outcomes = append(outcomes, &ebOutcome{digest: digest, orders: []string{desc}})
 			}
 			// at-most-once / nothing untriggered, under every order
 			if ref.Err == "" {
-				if mm := gspec.CompareExecsAllPred(ref, res.settled); mm != nil && mm.Class != "exec-untriggered" {
+				if mm := gspec.CompareExecsAllPred(ref, res.settled); mm != nil {
 					rep.Violation(ID+"/"+ebSub+"/executions/"+mm.Class, mm.Detail+"\n"+extra, wit)
 					return
 				}
